@@ -20,6 +20,9 @@ pub use simple_mdns_error::SimpleMdnsError;
 
 mod socket_helper;
 
+#[cfg(simple_dns_verif)]
+pub mod verif;
+
 #[cfg(feature = "async-tokio")]
 pub mod async_discovery;
 
